@@ -851,7 +851,21 @@ func (l *List) Present(st funcGen.Stack[Value]) (Value, error) {
 func (l *List) Top(st funcGen.Stack[Value]) (*List, error) {
 	if i, ok := st.Get(1).(Int); ok {
 		return NewListFromIterable(func(st funcGen.Stack[Value]) iterator.Producer[Value] {
-			return iterator.FirstN[Value](l.iterable(st), int(i))
+			// Stop right behind the last requested item: iterator.FirstN asks for one more
+			// item before it stops, which never returns if a filter upstream finds no further item.
+			return func(yield iterator.Consumer[Value]) {
+				n := int(i)
+				for v, err := range l.iterable(st) {
+					// top(0) still asks for one item: a consumer in multiUse has to iterate its list
+					if n == 0 || !yield(v, err) {
+						return
+					}
+					n--
+					if n == 0 {
+						return
+					}
+				}
+			}
 		}), nil
 	}
 	return nil, errors.New("error in top, no int given")
